@@ -121,6 +121,9 @@ def replay(data):
     if data.get('kind') == 'overflow':
         import c03_bracket
         return c03_bracket.native_long_steps()
+    if data.get('kind') == 'many_periods':
+        import c03_bracket
+        return c03_bracket.native_many_periods()
     if data.get('kind') == 'hang':
         import c03_bracket
         return c03_bracket.native_hang()
